@@ -20,9 +20,98 @@ pub fn commit1(h: &mut H, cpk1: &Value, x: &Integer) -> Value {
     c.ok().expect("commit").clone()
 }
 
+fn tt_of(a: &Integer, b: &Integer) -> u32 {
+    2 * (128 + 40 + 1) + Integer::from(b - a).significant_bits()
+}
+
 fn divm(a: &Integer, b: &Integer, n: &Integer) -> Integer {
     let bi = b.clone().invert(n).expect("unit");
     Integer::from(a * bi) % n
+}
+
+fn sha_int(s: &str) -> Integer {
+    use sha2::Digest;
+    let d = sha2::Sha256::digest(s.as_bytes());
+    Integer::from_digits(d.as_slice(), rug::integer::Order::MsfBe)
+}
+
+fn rnd_below(h: &mut H, bound: &Integer) -> Integer {
+    let nb = (bound.significant_bits() as usize + 71) / 8;
+    Integer::from_digits(&h.rng.bytes(nb), rug::integer::Order::MsfBe) % bound
+}
+
+/// Algorithm 1/3 run by a prover who knows the opening (x, r_1) of E = g^(x^2) h^(r_1)
+fn craft_square(h: &mut H, x: &Integer, r_1: &Integer, e: &Integer, g: &Integer, hh: &Integer, n: &Integer, b: &Integer) -> Value {
+    let (t, l, s, s1, s2) = (128u32, 40u32, 40u32, 40u32, 552u32);
+    let r_2 = rnd_below(h, &Integer::from(pow2(s) * n));
+    let f = Integer::from(powm(g, x, n) * powm(hh, &r_2, n)) % n;
+    let r_3 = Integer::from(r_1 - Integer::from(&r_2 * x));
+    let omega = rnd_below(h, &Integer::from(pow2(l + t) * b)) + 1u32;
+    let mu_1 = rnd_below(h, &Integer::from(pow2(l + t + s1) * n)) + 1u32;
+    let mu_2 = rnd_below(h, &Integer::from(pow2(l + t + s2) * n)) + 1u32;
+    let w_1 = Integer::from(powm(g, &omega, n) * powm(hh, &mu_1, n)) % n;
+    let w_2 = Integer::from(powm(&f, &omega, n) * powm(hh, &mu_2, n)) % n;
+    let ch = sha_int(&(w_1.to_string() + &w_2.to_string()));
+    let d = Integer::from(&omega + Integer::from(&ch * x));
+    let d_1 = Integer::from(&mu_1 + Integer::from(&ch * &r_2));
+    let d_2 = Integer::from(&mu_2 + Integer::from(&ch * &r_3));
+    json!({"E": iv(e), "F": iv(&f), "proof_ss": {"challenge": iv(&ch), "d": iv(&d), "d_1": iv(&d_1), "d_2": iv(&d_2)}})
+}
+
+/// Algorithm 5 run by a prover who knows the opening (x, r) of the committed remainder and chooses the
+/// masking value `w` freely (the Fiat-Shamir hash covers only g^w h^nu, so every w gives a consistent proof)
+fn craft_large(h: &mut H, x: &Integer, r: &Integer, w: &Integer, g: &Integer, hh: &Integer, n: &Integer, tt: u32) -> (Value, Integer, Integer) {
+    let (t, l, s) = (128u32, 40u32, 40u32);
+    let nu = rnd_below(h, &Integer::from(pow2(tt + t + l + s) * n));
+    let omega = Integer::from(powm(g, w, n) * powm(hh, &nu, n)) % n;
+    let cc = sha_int(&omega.to_string());
+    let c = Integer::from(&cc % pow2(t));
+    let d_1 = Integer::from(w + Integer::from(x * &c));
+    let d_2 = Integer::from(&nu + Integer::from(r * &c));
+    (json!({"C": iv(&cc), "D_1": iv(&d_1), "D_2": iv(&d_2)}), c, d_1)
+}
+
+/// A whole range proof assembled by a prover who knows the opening (x, r) of E = g^x h^r and who, unlike
+/// the honest prover, decomposes a NEGATIVE distance to the interval end as 0^2 + (negative remainder).
+/// `w_of(side, remainder)` picks the masking value of the larger-interval sub-proof of each side.
+/// `shifted` = decomposition points aa = 2^T a - kk, bb = 2^T b + kk as before the repair of F13
+/// (otherwise 2^T a, 2^T b as in the code now).
+pub fn craft_range(h: &mut H, x: &Integer, r: &Integer, e: &Integer, g: &Integer, hh: &Integer, n: &Integer, a: &Integer, b: &Integer, shifted: bool, w_of: &dyn Fn(&str, &Integer) -> Integer) -> Value {
+    let (t, l, s) = (128u32, 40u32, 40u32);
+    let tt = 2 * (t + l + 1) + Integer::from(b - a).significant_bits();
+    let kk = if shifted { pow2(l + t + tt / 2 + 1) * Integer::from(b - a).sqrt() } else { Integer::from(0) };
+    let aa = Integer::from(pow2(tt) * a) - &kk;
+    let bb = Integer::from(pow2(tt) * b) + &kk;
+    let xp = Integer::from(pow2(tt) * x);
+    let rp = Integer::from(pow2(tt) * r);
+    let e_prime = powm(e, &pow2(tt), n);
+    let split = |d: Integer| -> (Integer, Integer) {
+        if d < 0 { (Integer::from(0), d) } else { let q = d.clone().sqrt(); let rem = d - Integer::from(&q * &q); (q, rem) }
+    };
+    let (x_a_1, x_a_2) = split(Integer::from(&xp - &aa));
+    let (x_b_1, x_b_2) = split(Integer::from(&bb - &xp));
+    let rb = Integer::from(pow2(s + tt) * n);
+    let r_a_1 = rnd_below(h, &rb);
+    let r_a_2 = Integer::from(&rp - &r_a_1);
+    let r_b_1 = rnd_below(h, &rb);
+    let r_b_2 = Integer::from(-rp.clone()) - &r_b_1;
+    let com = |x: &Integer, r: &Integer| Integer::from(powm(g, x, n) * powm(hh, r, n)) % n;
+    let e_a_1 = com(&Integer::from(&x_a_1 * &x_a_1), &r_a_1);
+    let e_a_2 = com(&x_a_2, &r_a_2);
+    let e_b_1 = com(&Integer::from(&x_b_1 * &x_b_1), &r_b_1);
+    let e_b_2 = com(&x_b_2, &r_b_2);
+    let sq_a = craft_square(h, &x_a_1, &r_a_1, &e_a_1, g, hh, n, b);
+    let sq_b = craft_square(h, &x_b_1, &r_b_1, &e_b_1, g, hh, n, b);
+    let (li_a, _, _) = craft_large(h, &x_a_2, &r_a_2, &w_of("a", &x_a_2), g, hh, n, tt);
+    let (li_b, _, _) = craft_large(h, &x_b_2, &r_b_2, &w_of("b", &x_b_2), g, hh, n, tt);
+    json!({
+        "E": iv(e), "E_prime": iv(&e_prime),
+        "proof_of_tolerance": {
+            "E_a_1": iv(&e_a_1), "E_a_2": iv(&e_a_2), "E_b_1": iv(&e_b_1), "E_b_2": iv(&e_b_2),
+            "proof_of_square_a": sq_a, "proof_of_square_b": sq_b,
+            "proof_large_i_a": li_a, "proof_large_i_b": li_b,
+        }
+    })
 }
 
 pub fn c16(h: &mut H) {
@@ -169,7 +258,74 @@ pub fn c16(h: &mut H) {
                 }
             }
         }
-        let _ = (c, x);
+        // a prover who knows the opening but does not follow the algorithm
+        {
+            let (t, l) = (128u32, 40u32);
+            let tt = tt_of(&a, &b);
+            let r = field(&c, "randomness");
+            let e = field(&c, "value");
+            // bound of the remainders and the admissible interval [c*b_2, upper] of the response D_1 (Algorithm 6)
+            let b_2 = Integer::from(2) * Integer::from(pow2(tt) * Integer::from(&b - &a)).sqrt();
+            let upper = Integer::from(pow2(t + l) * &b_2) - 1u32;
+            let mid_w = Integer::from(&upper / 2u32);
+            // (i) in-range value, self-made proof: accepted (the crafted prover is a faithful re-implementation)
+            let z = craft_range(h, &x, &r, &e, &g, &hh, &n, &a, &b, false, &|_, _| mid_w.clone());
+            let v = rverify(h, &z, &g, &hh, &n, &a, &b);
+            h.stat("C16.crafted.in_range");
+            h.expect(v.is_true(), "C16.crafted_selfcheck", "a crafted proof for an in-range value (masking value in the middle of its range) is rejected", &[h.last()]);
+            // (ii) in-range value, response D_1 of one side pushed just past either bound of Algorithm 6: rejected
+            for side in ["a", "b"] {
+                for over in [true, false] {
+                    // D_1 = w + x2*c with c unknown before hashing: search a few w around the bound
+                    let mut found = false;
+                    for attempt in 0..40u32 {
+                        let guess_c = rnd_below(h, &pow2(t));
+                        let sd = side.to_string();
+                        let b2c = b_2.clone();
+                        let up = upper.clone();
+                        let mw = mid_w.clone();
+                        let gc = guess_c.clone();
+                        let w_of = move |s2: &str, x2: &Integer| -> Integer {
+                            if s2 != sd { return mw.clone(); }
+                            if over { Integer::from(&up + 1u32) + attempt } else { Integer::from(&gc * &b2c) - Integer::from(x2 * &gc) - 1u32 - attempt }
+                        };
+                        let z = craft_range(h, &x, &r, &e, &g, &hh, &n, &a, &b, false, &w_of);
+                        let li = &z["proof_of_tolerance"][format!("proof_large_i_{}", side)];
+                        let cc = Integer::from(field(li, "C") % pow2(t));
+                        let d1 = field(li, "D_1");
+                        let outside = if over { d1 > upper } else { d1 < Integer::from(&cc * &b_2) };
+                        if !outside { continue; }
+                        found = true;
+                        h.stat(&format!("C16.crafted.D1_{}_{}", if over { "above" } else { "below" }, side));
+                        let v = rverify(h, &z, &g, &hh, &n, &a, &b);
+                        h.expect(!v.is_true(), "C16.crafted_bound", &format!("range proof accepted with the response D_1 of side {} {} its admissible interval", side, if over { "above" } else { "below" }), &[h.last()]);
+                        break;
+                    }
+                    if !found { h.stat("C16.crafted.bound_not_hit"); }
+                }
+            }
+            // (iii) out-of-range values with a known opening: nothing the prover assembles may be accepted (DESIGN F13)
+            for (nm, xo) in [("b_plus_1", Integer::from(&b + 1u32)), ("a_minus_1", Integer::from(&a - 1u32)), ("b_plus_2k", Integer::from(&b + pow2(20))), ("twice_b_plus_3", Integer::from(&b * 2u32) + 3u32)] {
+                let co = commit1(h, &ck, &xo);
+                let (ro, eo) = (field(&co, "randomness"), field(&co, "value"));
+                // negative distance decomposed as 0^2 + negative remainder; masking values: the middle of the
+                // honest range, the middle of the range the verifier tolerated before F13 was repaired, and a
+                // value aimed at a challenge of 2^(t-1)
+                let old_mid = Integer::from(pow2(tt + t + l - 1) * &b);
+                let strategies: Vec<(&str, bool, Box<dyn Fn(&str, &Integer) -> Integer>)> = vec![
+                    ("mid", false, { let m = mid_w.clone(); Box::new(move |_, _| m.clone()) }),
+                    ("wide", false, { let m = old_mid.clone(); Box::new(move |_, _| m.clone()) }),
+                    ("wide_shifted", true, { let m = old_mid.clone(); Box::new(move |_, _| m.clone()) }),
+                    ("aimed", false, { let m = mid_w.clone(); Box::new(move |_, x2: &Integer| if *x2 < 0 { Integer::from(&m - Integer::from(x2 * pow2(127))) } else { m.clone() }) }),
+                ];
+                for (sn, shifted, w_of) in strategies {
+                    let z = craft_range(h, &xo, &ro, &eo, &g, &hh, &n, &a, &b, shifted, &*w_of);
+                    h.stat(&format!("C16.crafted.out_of_range.{}.{}", nm, sn));
+                    let v = rverify(h, &z, &g, &hh, &n, &a, &b);
+                    h.expect(!v.is_true(), "C16.cheating_prover_out_of_range", &format!("a prover who knows the opening of a commitment to {} (outside [min, max]) assembles a range proof that is accepted (strategy {})", nm, sn), &[h.last()]);
+                }
+            }
+        }
     }
     let _ = json!(0);
 }
